@@ -8,6 +8,20 @@ import sys
 
 def main():
   from . import scenario
+  from . import vworld as V
+  import scales.message as M
+  # Deadline.__init__ does a function-local `import time`, which the world cannot redirect: pin the wall-clock second it
+  # stamps into the deadline context to the virtual clock so that a case's byte stream is a function of the case alone
+  # (the timestamp itself is checked by C13's 'pipeline' cases, which patch time.time)
+  orig_init = M.Deadline.__init__
+
+  def init(self, timeout):
+    orig_init(self, timeout)
+    try:
+      self._ts = int(V.W().clock.now) * 1000000000
+    except Exception:
+      pass
+  M.Deadline.__init__ = init
   specs = json.load(sys.stdin)
   out = []
   for spec in specs:
